@@ -113,7 +113,8 @@ def _classify(term):
 def r3(ctx):
     # WinRate::calculate
     b = ctx.fibody(name="calculate", self_adt="barter::statistic::metric::win_rate::WinRate", trait="")
-    cases = formula.return_cases(b)
+    cases = [(common.untry_guard(b, g), common.drop_never(common.untry(b, t)), bi) for g, t, bi in formula.return_cases(b)]
+    cases = [c for c in cases if c[0]]
 
     def val_wr(cell):
         def v(a):
@@ -121,13 +122,14 @@ def r3(ctx):
                 c = atoms.cmp_term(a[1])
                 if c and c[0] == "eq" and {render(c[1]), render(c[2])} == {"total", "rust_decimal::Decimal::ZERO"}:
                     return (cell["total"] == "zero") == a[2]
-            if a[0] == "is" and a[1][0] == "call" and a[1][1].endswith("Try::branch"):
-                return ("Continue" in a[2]) == (cell["div"] == "ok")
+            # `checked_div(..)?` / `.map(..)` / `match`: all read as a test of the division's own Option
+            if a[0] == "is" and a[1][0] == "call" and a[1][1].endswith("checked_div"):
+                return ("Some" in a[2]) == (cell["div"] == "ok")
             return None
         return v
     oracle = {("zero", "ok"): "None", ("zero", "overflow"): "None",
-              ("nonzero", "ok"): "Option::Some{0: WinRate::WinRate{value: Try::branch(arithmetic_impls::checked_div(Decimal::abs(wins), Decimal::abs(total))).as:Continue.0}}",
-              ("nonzero", "overflow"): "None(div-overflow)"}
+              ("nonzero", "ok"): "Option::Some{0: WinRate::WinRate{value: arithmetic_impls::checked_div(Decimal::abs(wins), Decimal::abs(total)).as:Some.0}}",
+              ("nonzero", "overflow"): "None"}
     _table(ctx, "WinRate::calculate", cases, {"total": ["zero", "nonzero"], "div": ["ok", "overflow"]}, val_wr,
            lambda c: oracle[(c["total"], c["div"])])
 
@@ -144,6 +146,8 @@ def r3(ctx):
                 cases.append((g2, mir.subst(term, lambda x: t2 if x == phis[0] else None), bi2))
         else:
             cases.append((g, term, bi))
+    cases = [(common.untry_guard(b, g), common.drop_never(common.untry(b, t)), bi) for g, t, bi in cases]
+    cases = [c for c in cases if c[0]]
 
     def val_pf(cell):
         def v(a):
@@ -153,11 +157,11 @@ def r3(ctx):
                     return (cell["profits"] == "zero") == a[2]
                 if who == "losses_gross_abs":
                     return (cell["losses"] == "zero") == a[2]
-            if a[0] == "is" and a[1][0] == "call" and a[1][1].endswith("Try::branch"):
-                return ("Continue" in a[2]) == (cell["div"] == "ok")
+            if a[0] == "is" and a[1][0] == "call" and a[1][1].endswith("checked_div"):
+                return ("Some" in a[2]) == (cell["div"] == "ok")
             return None
         return v
-    div = "Try::branch(arithmetic_impls::checked_div(Decimal::abs(profits_gross_abs), Decimal::abs(losses_gross_abs))).as:Continue.0"
+    div = "arithmetic_impls::checked_div(Decimal::abs(profits_gross_abs), Decimal::abs(losses_gross_abs)).as:Some.0"
 
     def oracle_pf(c):
         if c["profits"] == "zero" and c["losses"] == "zero":
@@ -167,7 +171,7 @@ def r3(ctx):
         if c["profits"] == "zero":
             return "Option::Some{0: ProfitFactor::ProfitFactor{value: rust_decimal::Decimal::MIN}}"
         if c["div"] == "overflow":
-            return "None(div-overflow)"
+            return "None"
         return "Option::Some{0: ProfitFactor::ProfitFactor{value: %s}}" % div
     _table(ctx, "ProfitFactor::calculate", cases,
            {"profits": ["zero", "nonzero"], "losses": ["zero", "nonzero"], "div": ["ok", "overflow"]}, val_pf, oracle_pf)
